@@ -14,6 +14,7 @@ Deciding monitors (all observe real executions of the code in VERIF_REPO):
      actually driven.  Evidence and REQUIRED minimum counts only -- never a verdict.
 """
 import math
+import os
 
 import numpy as onp
 
@@ -34,23 +35,31 @@ ASSUMPTIONS = [
     "|x-x*| <= 2*tol/mu + 100*eps*cond*max(1,|x*|) (strong convexity with mu known by construction)",
     "finiteness clause asserted only when the RecordingObjective saw no non-finite input/output in any call the solver made",
     "path observer (sys.monitoring LINE + frame locals) is evidence only",
+    "C06's sub-problem contracts (vlib.monitors_c06, record mode) run in situ when available; their counters/closest calls appear "
+    "under c06_insitu/ as evidence, their verdict belongs to C06 (a c06_insitu/ ratio above 1, e.g. in the 'D20 class' of the "
+    "preconditioned-norm recurrence drift, is C06's open finding D20 and is NOT asserted here)",
 ]
 REQUIRED = {
     "all": {
         "solves": 150, "trace_points_checked": 1000, "descent_pairs_checked": 500, "flag_true_checked": 60,
         "flag_false_seen": 30, "finiteness_checked": 150, "convex_success_checked": 30, "returned_is_last_checked": 150,
-        "exit_converged_at_entry": 5, "exit_converged_in_loop": 50, "exit_radius_too_small": 5, "exit_iteration_cap": 10,
-        "step_boundary": 50, "step_neg_curve": 15, "step_interior": 50, "nan_rho_shrinks": 3,
+        "exit_converged_at_entry": 5, "exit_converged_in_loop": 50, "exit_radius_too_small": 10, "exit_iteration_cap": 10,
+        "step_boundary": 50, "step_neg_curve": 15, "step_interior": 50, "nan_rho_shrinks": 10,
         "precond_refresh_0": 3, "precond_refresh_1": 5, "cauchy_outside": 10,
         "farflat_flag_true": 5, "incremental_mode_solves": 8, "entry_nes_warm": 8, "entry_nes_cold": 8, "entry_trm": 30,
         "precond_exact": 30, "precond_stale": 8, "precond_identity": 8, "ip_preconditioned": 20, "ip_euclidean": 30,
-        "class:convex_default": 24, "class:far_flat": 12, "class:exits": 18, "class:barrier": 6, "class:incremental": 8,
+        "class:roundoff_floor": 20, "model_increase": 50, "model_and_objective_increase_at_acceptance_test": 50,
+        "cap_exit_after_rejected_last_trial": 3, "class:convex_default": 24, "class:far_flat": 12, "class:exits": 24, "class:barrier": 6, "class:incremental": 8,
     },
     "quick": {},
-    "thorough": {"solves": 3000, "exit_converged_at_entry": 25, "exit_radius_too_small": 25, "exit_iteration_cap": 25,
-                 "step_boundary": 100, "step_neg_curve": 100, "step_interior": 100},
+    "thorough": {"solves": 12000, "trace_points_checked": 40000, "descent_pairs_checked": 40000, "flag_true_checked": 2000,
+                 "flag_false_seen": 1500, "finiteness_checked": 10000, "convex_success_checked": 1000,
+                 "exit_converged_at_entry": 300, "exit_converged_in_loop": 2000, "exit_radius_too_small": 400, "exit_iteration_cap": 1000,
+                 "step_boundary": 50000, "step_neg_curve": 700, "step_interior": 15000, "nan_rho_shrinks": 1000,
+                 "model_increase": 4000, "model_and_objective_increase_at_acceptance_test": 4000,
+                 "cap_exit_after_rejected_last_trial": 80, "farflat_flag_true": 240, "incremental_mode_solves": 300},
 }
-WATCHDOG_S = {"quick": 1800, "thorough": 4 * 3600}
+WATCHDOG_S = {"quick": 1500, "thorough": 4 * 3600}
 MAX_VACUOUS_FRACTION = 0.25
 
 D1_KEY = "D1_convergence_test_on_trial_point_precedes_acceptance"
@@ -67,7 +76,7 @@ def _pick(rng, seq):
 
 def build_cases(tier, seed):
     rng = rng_of(derive_seed(seed, PROPERTY, "build"))
-    mult = 1 if tier == "quick" else 14
+    mult = 1 if tier == "quick" else 40
     cases = []
 
     def add(cls, i, **kw):
@@ -102,11 +111,11 @@ def build_cases(tier, seed):
         add("far_flat", i, family=("flat_exp", "flat_rat")[i % 2], n=(1, 1, 2, 3, 5, 8)[i % 6], entry=("trm", "nes_cold")[i % 2],
             start="random", precond=("exact", "identity")[(i // 2) % 2], ip=False, incremental=False, settings="farflat")
     # early exits: iteration caps / radius floor / start at the minimiser
-    for i in range(36 * mult):
-        kind = ("cap", "radius", "at_min")[i % 3]
-        fam = _pick(rng, ("quad", "quartic", "rosen", "wells", "convex_nq", "rankdef"))
+    for i in range(48 * mult):
+        kind = ("cap", "radius", "at_min", "cap_retry")[i % 4]
+        fam = _pick(rng, ("quad", "quartic", "rosen", "wells", "convex_nq", "rankdef")) if kind != "cap_retry" else _pick(rng, ("quartic", "wells"))
         n = max(2, _pick(rng, DIMS))
-        add("exits", i, family=fam if kind != "at_min" else ("quad", "convex_nq", "rankdef")[(i // 3) % 3], n=n,
+        add("exits", i, family=fam if kind != "at_min" else ("quad", "convex_nq", "rankdef")[(i // 4) % 3], n=n,
             entry=_pick(rng, ("trm", "nes_cold")), start="at_min" if kind == "at_min" else "random",
             precond=_pick(rng, ("exact", "identity")), ip=bool(rng.integers(2)), incremental=False, settings="exit_" + kind)
     # NaN-producing objective (log barrier): exercises the `not rho >= eta2` NaN path
@@ -125,6 +134,12 @@ def build_cases(tier, seed):
         add("hostile_precond", i, family=fam, n=max(2, _pick(rng, DIMS)), entry=("trm", "nes_cold", "nes_warm")[i % 3],
             start=_pick(rng, ("random", "far", "saddle")) if fam in ("quartic", "wells") else "random",
             precond=("stale", "identity", "stale")[i % 3], ip=bool(i % 4 != 3), incremental=False, settings="hostile")
+    # round-off floor: rank-deficient Hessian of norm 1e6..1e11 + quartic, tight (admissible) tolerance.  Near the minimiser the
+    # curvature along the null space sinks below the rounding noise of H*v: CG reports 'neg curve', the model value comes
+    # out POSITIVE (drives the rho re-signing branch) and the radius collapses (drives the radius-too-small exit).
+    for i in range(40 * mult):
+        add("roundoff_floor", i, family="rankdef", n=(5, 8, 13, 20)[i % 4], entry=("trm", "nes_cold")[i % 2], start="random",
+            precond=("exact", "exact", "stale")[i % 3], ip=bool((i // 2) % 2), incremental=False, settings="roundoff", cost=3.0)
     ngroups = 32 if tier == "quick" else 64
     for j, c in enumerate(cases):
         c["group"] = "g%d" % (j % ngroups)
@@ -160,8 +175,16 @@ def draw_settings(kind, rng, n):
         if rng.random() < 0.5:
             kw["tr_size"] = float(loguniform(rng, 1e1, 1e3))   # oversized region on a non-quadratic => rejections
             kw["min_tr_size"] = float(kw["tr_size"] * rng.uniform(0.3, 0.95))
+    elif kind == "exit_cap_retry":
+        # iteration cap reached right after the radius-too-small retry: the last trial point was REJECTED (x != y at the exit)
+        kw.update(tr_size=float(loguniform(rng, 1e1, 1e3)), t1=float(rng.uniform(0.05, 0.3)), max_trust_iters=int(_pick(rng, (1, 1, 2))),
+                  tol=float(loguniform(rng, 1e-10, 1e-8)), max_cg_iters=int(_pick(rng, (10, 25, 50))))
+        kw["min_tr_size"] = float(kw["tr_size"] * rng.uniform(0.5, 0.95))
     elif kind == "barrier":
         kw.update(tr_size=float(loguniform(rng, 1.0, 1e2)), max_trust_iters=int(_pick(rng, (20, 100))), min_tr_size=1e-10)
+    elif kind == "roundoff":
+        kw.update(tol=float(loguniform(rng, 1e-10, 1e-9)), max_cg_iters=int(_pick(rng, (5, 25, 50))), max_trust_iters=60,
+                  max_cumulative_cg_iters=1000, tr_size=float(loguniform(rng, 1e-1, 1e3)), min_tr_size=float(loguniform(rng, 1e-10, 1e-6)))
     elif kind == "hostile":
         kw.update(max_cg_iters=int(_pick(rng, (1, 2, 3, 5))), max_cumulative_cg_iters=int(_pick(rng, (2, 3, 5, 10))),
                   max_trust_iters=int(_pick(rng, (20, 50, 100))))
@@ -192,15 +215,48 @@ def get_observer():
         except Exception as e:  # noqa -- evidence only; REQUIRED counters will then be missing => inconclusive
             _observer["o"] = None
             _observer["err"] = repr(e)
-        try:  # C06's contracts on the sub-problem solver, in situ (optional; written by another module)
-            from vlib import monitors_c06
-            _observer["c06"] = monitors_c06.install_contracts()
-        except ImportError:
-            _observer["c06"] = None
-        except Exception as e:  # noqa
-            _observer["c06"] = None
-            _observer["c06_err"] = repr(e)
+        # C06's contracts on the sub-problem solvers, installed in situ (optional; written by another module).  They are
+        # EVIDENCE for C01 (counters / closest calls under the prefix c06_insitu/): C06 owns their verdict.
+        _observer["c06"] = None
+        if os.environ.get("VERIF_C01_C06_INSITU", "1") != "0":
+            try:
+                from vlib import monitors_c06
+                monitors_c06.install_contracts(mode="record", subspace=False)
+                _observer["c06"] = monitors_c06
+            except ImportError:
+                pass
+            except Exception as e:  # noqa
+                _observer["c06_err"] = repr(e)
     return _observer["o"]
+
+
+def while_iteration_bound(s):
+    """Rigorous upper bound on the number of passes through the acceptance loop of trust_region_minimize for admissible
+    settings (eta1 <= eta2, 0 < t1 < 1 < t2, min_tr_size < tr_size): a rejected trial step has rho < eta1 <= eta2 (or NaN),
+    hence always shrinks the radius by t1, and the inner loop ends once the radius is below min_tr_size; the radius grows by
+    t2 at most once per outer iteration (only accepted steps can have rho > eta3)."""
+    N = int(s.max_trust_iters)
+    a = max(0.0, math.log(float(s.tr_size) / float(s.min_tr_size))) / math.log(1.0 / float(s.t1))
+    b = math.log(float(s.t2)) / math.log(1.0 / float(s.t1))
+    return int(N * (a + 3.0) + 0.5 * N * (N + 1) * b) + 10
+
+
+PRACTICAL_WHILE_CAP = 20000
+
+
+def fold_c06(res, c06):
+    """C06's in-situ log -> evidence counters of this case (never a C01 verdict)."""
+    log = c06.LOG
+    for k, n in log.counters.items():
+        res.count("c06_insitu/" + k, n)
+    for clause, r in log.ratios.items():
+        k = "c06_insitu/" + clause
+        if r > res.ratios.get(k, -1.0) and math.isfinite(r):
+            res.ratios[k] = r
+    res.count("c06_insitu/oracle_checks", log.checks)
+    if log.violations:
+        res.count("c06_insitu/violations_recorded_for_C06", len(log.violations))
+    log.reset()
 
 
 def descent_slack(a, b):
@@ -236,6 +292,9 @@ def check_trace(res, fam, p_req, start, rec, x_ret, flag, tol, obj, log_start, i
         res.count("finiteness_checked")
     else:
         res.count("finiteness_not_asserted_nonfinite_evaluation_seen")
+        nf = sum(1 for k, fi, fo in obj.log[log_start:] if k == "apply_precond" and not fi)
+        if nf:
+            res.count("nonfinite_preconditioner_inputs", nf)     # the solver handed NaN/inf to apply_precond (CG overflow)
 
     # (i) descent along reported iterates (value-based mode only)
     ups = []
@@ -295,6 +354,8 @@ def run_case(case):
         opts.update(cond=10.0 ** rng.uniform(0, 4), scaled=case.get("scaled", False))
     elif fam in G.CONVEX:
         opts.update(cond=10.0 ** rng.uniform(0, 8), scaled=bool(rng.random() < 0.25))
+    elif cls == "roundoff_floor":
+        opts.update(scale=10.0 ** rng.uniform(6, 11))
     prob = G.gen_problem(fam, n, rng, opts)
     kw = draw_settings(case["settings"], rng, n)
     kw["use_preconditioned_inner_product_for_cg"] = bool(case["ip"])
@@ -305,6 +366,10 @@ def run_case(case):
     tol = float(settings.tol)
 
     x0 = onp.array(prob["x0"])
+    if case["settings"] == "exit_cap_retry":
+        x0 = 0.05 * rng.standard_normal(n)      # inside the concave core of the wells / indefinite quartic: a huge boundary step follows
+    if cls == "roundoff_floor":
+        x0 = prob["b"] + (x0 - prob["b"]) * 10.0 ** rng.uniform(0, 2)
     if cls == "far_flat":
         # keep the start where the Newton/dogleg step overshoots onto the flat tail: |x|_A in (0.55, 1.2)
         v = rng.standard_normal(n)
@@ -336,6 +401,9 @@ def run_case(case):
         x_stale = onp.clip(x_stale, -1.5, 1.5)
 
     observer = get_observer()
+    c06 = _observer.get("c06")
+    if c06 is not None:
+        c06.LOG.reset()
     rec = M.CallbackRecorder()
     starts = []
 
@@ -345,6 +413,9 @@ def run_case(case):
             observer.reset()
         return es.trust_region_minimize(objective, x, s, callback=callback)
 
+    per_pass = 2 if case["incremental"] else 1
+    rigorous = per_pass * while_iteration_bound(settings) + 2
+    obj.gradient_budget = min(rigorous, per_pass * PRACTICAL_WHILE_CAP)
     res.count("solves")
     res.count("entry_" + entry)
     res.count("precond_" + pk)
@@ -362,6 +433,14 @@ def run_case(case):
                 obj.update_precond(np.asarray(x_stale))
             x_ret, flag = es.nonlinear_equation_solve(obj, np.asarray(x0), p_req, settings, solver_algorithm=solver_algorithm,
                                                       callback=rec, useWarmStart=(entry == "nes_warm"), updatePrecond=update)
+    except M.LogicalBudgetExceeded as e:
+        res.count("logical_budget_exceeded")
+        if obj.gradient_calls > rigorous:
+            res.violate("solver_terminates", {"gradient_calls": obj.gradient_calls, "rigorous_bound": rigorous, "n_reported": len(rec.xs),
+                                              "info": "more acceptance-loop passes than the settings admit: the solver does not return"})
+        else:
+            res.inconclusive("practical iteration cap of the harness hit (%s) below the rigorous bound %d" % (e, rigorous))
+        return res
     except Exception as e:  # noqa
         finite = obj.all_evaluations_finite(0)
         res.count("solver_raised")
@@ -379,9 +458,19 @@ def run_case(case):
         res.vacuous("warm start produced a non-finite start point")
         return res
 
+    if c06 is not None:
+        fold_c06(res, c06)
     exit_taken = None
     if observer is not None:
         exit_taken = M.summarize(observer, res, (M.TRM_EXIT_NAMES, M.DOGLEG_NAMES, M.CG_NAMES))
+        acc = [vals for tag, vals in observer.events if tag == "accept_test"]
+        if exit_taken == "exit_iteration_cap" and acc and not acc[-1].get("willAccept"):
+            res.count("cap_exit_after_rejected_last_trial")
+        for tag, vals in observer.events:
+            if tag == "accept_test" and (vals.get("modelObjective") or 0.0) > 0:
+                res.count("model_increase_at_acceptance_test")
+                if (vals.get("realObjective") or 0.0) > 0:
+                    res.count("model_and_objective_increase_at_acceptance_test")
     facts = check_trace(res, fam, p_req, start, rec, x_ret, flag, tol, obj, log_start, bool(case["incremental"]),
                         assert_finite=True)
     if fam == "barrier" and not facts["all_evals_finite"]:
@@ -425,3 +514,25 @@ def run_case(case):
         allowed = 2.0 * tol / mu + 1e3 * EPS * cond * max(1.0, float(onp.linalg.norm(xs)))
         res.bound("convex_certificate_on_success", err, allowed, {"mu": mu, "cond": cond, "n": n, "family": fam})
     return res
+
+
+def finalize(results, tier):
+    """Extra coverage keys: per-family status counts, exits per class, reported-iterate histogram."""
+    fam, exits, hist = {}, {}, {"0": 0, "1": 0, "2-5": 0, "6-20": 0, "21+": 0}
+    for r in results:
+        c = r.get("case", {})
+        f = c.get("family")
+        if f is None:
+            continue
+        d = fam.setdefault(f, {})
+        d[r.get("status", "?")] = d.get(r.get("status", "?"), 0) + 1
+        o = r.get("obs", {})
+        e = exits.setdefault(c.get("cls", "_"), {})
+        for k, v in o.items():
+            if k.startswith("exit_"):
+                e[k] = e.get(k, 0) + v
+        m = o.get("accepted_or_reported_moves")
+        if m is not None:
+            b = "0" if m == 0 else "1" if m == 1 else "2-5" if m <= 5 else "6-20" if m <= 20 else "21+"
+            hist[b] += 1
+    return {"per_family_status": fam, "exits_per_class": exits, "distinct_reported_iterates_histogram": hist}
